@@ -275,6 +275,10 @@ class Repo:
             c, f = qual.split('.', 1)
             if c in m['classes'] and f in m['classes'][c][1]:
                 return m['classes'][c][1][f]
+            if c in m['funcs']:                      # closure: function nested in a module-level function
+                for n in ast.walk(m['funcs'][c]):
+                    if isinstance(n, ast.FunctionDef) and n.name == f and n is not m['funcs'][c]:
+                        return n
             raise KeyError('{}:{}'.format(rel, qual))
         if qual in m['funcs']:
             return m['funcs'][qual]
@@ -508,13 +512,15 @@ class Engine:
         for nme in names:
             ty = types.get(nme)
             if ty is None:
-                if nme == 'self' and '.' in qual:
+                if nme == 'self' and '.' in qual and not c.get('closure_vars'):
                     ty = 'obj:' + qual.split('.')[0]
                 else:
                     raise Unsupported('no declared type for parameter ' + nme)
             env[nme] = self.fresh_of_type(nme, ty)
         if args.vararg or args.kwarg:
             raise Unsupported('*args/**kwargs in function under contract')
+        for nme, ty in c.get('closure_vars', {}).items():       # free variables of a nested function
+            env[nme] = self.fresh_of_type(nme, ty)
         return env
 
     def snapshot(self, v):
@@ -1281,6 +1287,13 @@ class Engine:
         if len(e.generators) != 1 or e.generators[0].ifs:
             raise Unsupported('comprehension shape')
         g = e.generators[0]
+        if isinstance(g.iter, ast.Call) and isinstance(g.iter.func, ast.Name) and g.iter.func.id == 'zip' and len(g.iter.args) == 2 \
+                and isinstance(g.target, ast.Tuple) and len(g.target.elts) == 2 and 'zip' not in env:
+            x, y = [t.id for t in g.target.elts]
+            A, Bv = self.eval(g.iter.args[0], env), self.eval(g.iter.args[1], env)
+            if isinstance(A, VSeq) and isinstance(Bv, VSeq) and A.sortname == 'ISeq' and Bv.sortname == 'ISeq' \
+                    and ast.unparse(e.elt) in ('{} * {}'.format(x, y), '{} * {}'.format(y, x)):
+                return VSeq(specs.smul(A.term, Bv.term))
         it = self.eval_iter(g.iter, env)
         if isinstance(it, VTuple):
             out = []
@@ -1305,6 +1318,10 @@ class Engine:
                 del self.pc[saved:]
             if not (is_z3(body) and z3.is_int(body)) and not isinstance(body, int):
                 raise Unsupported('comprehension element is not an int (line {})'.format(e.lineno))
+            diff = z3.simplify(toz(body) - t)
+            if not _mentions(diff, t):
+                # unit-stride progression  [c+lo, c+lo+1, ...]: an abstract literal list apseq(start, n)
+                return VSeq(specs.apseq(z3.simplify(z3.substitute(toz(body), (t, z3.IntVal(0)))), z3.simplify(n)))
             return VArr(z3.simplify(n), z3.Lambda([t], toz(body)))
         if isinstance(it, VTerms) and isinstance(g.target, ast.Tuple) and len(g.target.elts) == 2:
             c, l = [x.id for x in g.target.elts]
@@ -1315,6 +1332,8 @@ class Engine:
             src = ast.unparse(e.elt)
             if src == '(1, {})'.format(g.target.id):
                 return VTerms(specs.tunit(it.term))
+            if src == '[-{}]'.format(g.target.id):
+                return VSeq(specs.negunits(it.term))
             if src == '-' + g.target.id:
                 return VSeq(specs.ineg(it.term))
             if src == g.target.id:
@@ -1455,6 +1474,11 @@ class Engine:
     def call_contract(self, key, c, fnode, args, kw, node, selfobj):
         allargs = ([selfobj] if selfobj is not None else []) + list(args)
         env = self.bind_args(fnode, allargs, kw, node)
+        for pn, ty in c.get('params', {}).items():
+            if ty == 'iseq' and isinstance(env.get(pn), VTuple):
+                env[pn] = VSeq(_term(env[pn]))
+            if ty == 'iseq' and isinstance(env.get(pn), VArr):
+                raise Unsupported('int array passed where an abstract literal list is expected')
         label = '{}'.format(key[1])
         # universally quantified ghost parameters: the callee's post holds for every value, so it is
         # instantiated at the caller's ghost of the same type (else at a fresh constant)
@@ -1623,12 +1647,30 @@ def _term(v):
     if isinstance(v, str):
         return z3.StringVal(v)
     if isinstance(v, VTuple):
+        if v.items and all(isinstance(x, (VTuple, VSeq)) for x in v.items):
+            t = specs.cnil                  # concrete list of clauses -> csnoc chain
+            for x in v.items:
+                t = specs.csnoc(t, _term(x))
+            return t
         # concrete list of ints -> isnoc chain
         t = specs.inil
         for x in v.items:
             t = specs.isnoc(t, toz(x))
         return t
     return toz(v)
+
+
+def _mentions(e, v):
+    stack, seen = [e], set()
+    while stack:
+        x = stack.pop()
+        if x.get_id() in seen:
+            continue
+        seen.add(x.get_id())
+        if x.eq(v):
+            return True
+        stack.extend(x.children())
+    return False
 
 
 def as_arr(v):
@@ -1703,6 +1745,8 @@ SPEC_FUNCS = {
     'ohaszero': _wrap(specs.ohaszero), 'onormal': _wrap(specs.onormal),
     'mkcon': _wrap(specs.mkcon), 'con_terms': _wrap(specs.Con.terms), 'con_op': _wrap(specs.Con.op), 'con_value': _wrap(specs.Con.value),
     'cmp_op': lambda eng, node, op, a, b: specs.cmp_op(_term(op), toz(a), toz(b)),
+    'rnbrs': _wrap(specs.rnbrs), 'lit_true': _wrap(specs.lit_true), 'apseq': _wrap(specs.apseq), 'negunits': _wrap(specs.negunits), 'asclauses': lambda eng, node, v: VSeq(_term(v)),
+    'pfilter': _wrap(specs.pfilter), 'signvecs': _wrap(specs.signvecs),
     'psum': lambda eng, node, I, W, t: specs.psum(as_arr(I).arr, as_arr(W).arr, toz(t)),
     'zmax': lambda eng, node, a, b: zmax(toz(a), toz(b)),
     'zmin': lambda eng, node, a, b: zmin(toz(a), toz(b)),
@@ -1790,6 +1834,9 @@ def b_list(eng, node, v=None):
         return VSeq(v.term)
     if isinstance(v, VRange) and all(isinstance(x, int) for x in (v.lo, v.hi, v.step)):
         return VTuple(list(range(v.lo, v.hi, v.step)), 'list')
+    if isinstance(v, VObj):
+        r = eng.call_method(v, '__iter__', [], {}, node)
+        return b_list(eng, node, r)
     raise Unsupported('list() of {!r}'.format(v))
 
 
@@ -1882,14 +1929,28 @@ def lib_combinations(eng, node, seq, k):
     raise Unsupported('combinations of {!r}'.format(seq))
 
 
+def lib_reduce(eng, node, f, seq, init=None):
+    if isinstance(seq, VSeq) and seq.sortname == 'ISeq' and isinstance(f, tuple) and f[0] == 'global' and f[1] in ('mul', 'operator.mul') \
+            and init == 1:
+        return specs.sprod(seq.term)
+    if isinstance(seq, VTuple) and isinstance(f, tuple) and f[1] in ('mul', 'operator.mul'):
+        r = init if init is not None else 1
+        for x in seq.items:
+            r = r * x
+        return r
+    raise Unsupported('reduce')
+
+
 def lib_product(eng, node, *args, repeat=1):
     import itertools
+    if len(args) == 1 and isinstance(args[0], VTuple) and args[0].items == [1, -1] and not isinstance(repeat, int):
+        return VSeq(specs.signvecs(toz(repeat)))
     if all(isinstance(a, VTuple) for a in args) and isinstance(repeat, int):
         return VTuple([VTuple(list(c)) for c in itertools.product(*[a.items for a in args], repeat=repeat)], 'list')
     raise Unsupported('product of symbolic sequences')
 
 
-LIBRARY = {'itertools.combinations': lib_combinations, 'itertools.product': lib_product,
+LIBRARY = {'itertools.combinations': lib_combinations, 'itertools.product': lib_product, 'functools.reduce': lib_reduce,
            'inspect.isgenerator': b_isgenerator, 'isgenerator': b_isgenerator}
 
 
